@@ -48,6 +48,7 @@ def run(prog, tier, extra=None):
     res = Result("C02", "other")
     R1 = res.rule("C02.no-wrap", "amount-derived u64 values are not added/multiplied/summed with wrap-around or overflow panic before validation", floor=3)
     R2 = res.rule("C02.inflation-gate", "Transaction::validate accepts a non-privileged transaction only through total_out <= total_in", floor=1)
+    R4 = res.rule("C02.fee-counted", "the fee of every user-signed transaction type (Normal, GoldenTicket, Vip, BlockStake, Bound) is added to the block's collected fees", floor=5)
     R3 = res.rule("C02.payout-exact", "Block::validate accepts a block only with exactly the fee transaction its consensus values call for", floor=3)
     cg = CallGraph(prog, [u for u in prog.units if u.crate == "saito_core"])
     roots = [TX + "generate", CORE + "consensus::block::Block::generate"]
@@ -139,6 +140,31 @@ def run(prog, tier, extra=None):
                             tv.loc(path[-1]), {"path": describe_path(tv, path)}))
         else:
             res.sample({"rule": R2, "comparison": ["%s: total_out %s total_in" % (tv.loc(c["bb"]), c["op"]) for c in cmps], "states": ex.states, "verdict": "must-pass holds"})
+    # R4: a user transaction's fee is inputs minus outputs; those tokens exist afterwards only as part of the block's total_fees_new
+    # (from which payouts are made). generate_consensus_values adds transaction.total_fees under a test of the transaction type: for
+    # every type a user can sign, that addition must be reachable - otherwise the fee is destroyed (and the supply check aborts the node).
+    from ..fields import place_has_field as _phf4
+    from ..expr import Chaser as _Ch4
+    gcv4 = prog.body(CORE + "consensus::block::Block::generate_consensus_values::{closure#0}")
+    if gcv4 is None:
+        raise LookupError("Block::generate_consensus_values not found")
+    ch4 = _Ch4(gcv4)
+    adds4 = {bb for bb, blk in enumerate(gcv4.blocks) for st in blk["s"]
+             if st[0] == "=" and _phf4(st[1], "ConsensusValues", "total_fees_new") is not None and has_field(ch4.rvalue(st[2], 0), "transaction::Transaction", "total_fees")}
+    if not adds4:
+        res.instance(R4)
+        res.add(Finding(R4, "C02.fee-counted|anchors", "generate_consensus_values no longer adds transaction.total_fees to cv.total_fees_new (anchor moved?)", gcv4.loc(0)))
+    else:
+        for v4 in ("Normal", "GoldenTicket", "Vip", "BlockStake", "Bound"):
+            res.instance(R4)
+            known4 = {}
+            dead4 = gate.edges_not_taken_when(prog, gcv4, ch4, "transaction::TransactionType", "transaction_type", v4, known=known4)
+            hit4 = Explorer(gcv4, fixed_locals=dict(known4)).explore(0, deleted_edges=dead4, accept=lambda bb, env: "added" if bb in adds4 else None)
+            if hit4:
+                res.sample({"rule": R4, "type": v4, "verdict": "fee added to total_fees_new"})
+            else:
+                res.add(Finding(R4, "C02.fee-counted|%s" % v4, "generate_consensus_values never adds the fee of a %s transaction to total_fees_new: inputs minus outputs of such a transaction "
+                                "are counted nowhere - the tokens are destroyed, and Blockchain::check_total_supply aborts the node after the block is wound" % v4, gcv4.loc(sorted(adds4)[0])))
     # R3: the fee transaction is the one place where outputs are created without inputs. generate_consensus_values derives the
     # expected one (cv.fee_transaction); Block::validate must (i) compare it whenever one is expected - a block that omits it
     # loses the payout -, (ii) compare it whenever the block carries one - an unexpected Fee transaction mints tokens -, and
@@ -240,7 +266,7 @@ def run(prog, tier, extra=None):
             "an output collected as fees when it left the window must not be spendable afterwards: its value would exist twice")
     include(res, prog, tier, extra, "c01", ["C01.dup-scan", "C01.scan-exemptions"],
             "an input consumed twice inside one transaction or block pays out more than was consumed")
-    include(res, prog, tier, extra, "c13", ["C13.handled", "C13.derive", "C13.window-block-on-disk"],
+    include(res, prog, tier, extra, "c13", ["C13.handled", "C13.derive", "C13.window-block-on-disk", "C13.fee-deducted"],
             "every expiring output is either rebroadcast (fee booked) or its own amount is booked to the graveyard: nothing else conserves supply")
     include(res, prog, tier, extra, "c03", ["C03.tx-apply-total"],
             "a payout created when a block is wound must be withdrawn when it is unwound (and the inputs it consumed restored): otherwise a reorganisation leaves extra spendable value behind")
